@@ -43,6 +43,14 @@ type Ctx struct {
 	sampleOut   map[string]any
 	curCase     any
 	inexact     map[string]bool
+	beat        func()
+}
+
+// Heartbeat tells the watchdog that the current case is making progress (long explorations).
+func (c *Ctx) Heartbeat() {
+	if c.beat != nil {
+		c.beat()
+	}
 }
 
 // signature summarises what a run observed (outcome labels and finding classes).
@@ -756,6 +764,11 @@ func runSub(sub *Sub, tier string, deadline time.Time) (subStats, []any, map[str
 	for w := 0; w < workers; w++ {
 		w := w
 		ctx := newCtx(tier)
+		ctx.beat = func() {
+			if fl[w].since.Load() != 0 {
+				fl[w].since.Store(time.Now().UnixNano())
+			}
+		}
 		ctxs[w] = ctx
 		wg.Add(1)
 		go func() {
